@@ -22,7 +22,12 @@ def _case(i):
     tier, seed, rundir = _RUN['tier'], _RUN['seed'], _RUN['dir']
     rng = C.rng_for(seed, PID, tier, i)
     res = {'i': i, 'items': [], 'feat': [], 'status': 'ok', 'hist': {}}
-    name, prog = gen.gen_case(rng, allow_input=True)
+    if i % 12 == 5:
+        name, prog = 'tmpl:stack0_data', gen.tmpl_stack0_data(rng)
+    elif i % 12 == 9:
+        name, prog = 'tmpl:forward_jump', gen.tmpl_forward_jump(rng)
+    else:
+        name, prog = gen.gen_case(rng, allow_input=True)
     stdin = gen.gen_stdin(rng)
     res['src'] = name
     text = P.render_text(rng, prog)
@@ -137,5 +142,7 @@ def main(tier, seed):
                'jump': (featc.get('jump', 0), 50), 'stdin': (featc.get('stdin', 0), 30),
                'exit': (featc.get('exit0', 0) + featc.get('exit1', 0), 30),
                'steps': (hist.get('steps_compared_one', 0), 5000),
-               'heart_after_heart': (featc.get('heart_after_heart', 0), 5)}
+               'heart_after_heart': (featc.get('heart_after_heart', 0), 5),
+               'forward_jump': (featc.get('forward_jump', 0), 20),
+               'stack0_used_as_data': (featc.get('stack0_used_as_data', 0), 30)}
     return rep.finish(cov, assumptions, t0, minimum)
